@@ -14,7 +14,7 @@ package main
 import (
 	"fmt"
 	"math"
-	"strconv"
+	"math/big"
 
 	"github.com/ccbrown/api-fu/graphql/ast"
 	"github.com/ccbrown/api-fu/graphql/schema"
@@ -348,7 +348,7 @@ func (r *ref) completeValue(t gqlgen.TypeRef, fields []*ast.Field, v *gqlgen.Out
 	case "enum":
 		if v.Kind == "leaf" {
 			for _, ev := range td.Values {
-				if ev.Value == *v.Val {
+				if ev.Value.Same(*v.Val) {
 					return done(jvStr(ev.Name))
 				}
 			}
@@ -383,12 +383,15 @@ func mergeSelectionSets(fields []*ast.Field) []ast.Selection {
 // documents: Int takes integral numbers within 32 bits and booleans; Float takes numbers and
 // booleans; String strings; Boolean booleans; ID strings and integers.
 func refCoerceScalar(name string, g gqlgen.GoVal) *JV {
+	g = g.Canon()
+	two31 := big.NewInt(1 << 31)
 	switch name {
 	case "Int":
 		switch g.Kind {
 		case "int":
-			if g.Int >= -(1<<31) && g.Int <= (1<<31)-1 {
-				return jvNum(float64(g.Int))
+			z := g.BigInt()
+			if z.Cmp(new(big.Int).Neg(two31)) >= 0 && z.Cmp(two31) < 0 {
+				return jvNum(float64(z.Int64()))
 			}
 		case "float":
 			if g.Float == math.Trunc(g.Float) && g.Float >= -(1<<31) && g.Float <= (1<<31)-1 {
@@ -403,7 +406,9 @@ func refCoerceScalar(name string, g gqlgen.GoVal) *JV {
 	case "Float":
 		switch g.Kind {
 		case "int":
-			return jvNum(float64(g.Int))
+			// the nearest double (round to nearest, ties to even)
+			f, _ := new(big.Float).SetInt(g.BigInt()).Float64()
+			return jvNum(f)
 		case "float":
 			return jvNum(g.Float)
 		case "bool":
@@ -425,7 +430,10 @@ func refCoerceScalar(name string, g gqlgen.GoVal) *JV {
 		case "str":
 			return jvStr(g.Str)
 		case "int":
-			return jvStr(strconv.FormatInt(g.Int, 10))
+			// integers that fit a signed 64-bit integer, in decimal
+			if z := g.BigInt(); z.IsInt64() {
+				return jvStr(z.String())
+			}
 		}
 	}
 	return nil
